@@ -31,6 +31,8 @@ def oas30_to_draft7(s):
         return [oas30_to_draft7(x) for x in s]
     if not isinstance(s, dict):
         return s
+    if "$ref" in s:
+        return {"$ref": s["$ref"]}  # OpenAPI 3.0 (as draft-07): the siblings of $ref are ignored, `nullable` included
     out = {}
     for k, v in s.items():
         if k in ("properties", "patternProperties", "definitions"):
